@@ -10,6 +10,7 @@ import Sonic.Proofs.NumberNormalFast
 import Sonic.Proofs.NumberNormalFastPath
 import Sonic.Proofs.DecTake
 import Sonic.Proofs.NumberAllB
+import Sonic.Proofs.NumberBig
 
 /-!
 # C04 — numbers parse to the exact integer or the correctly rounded double
@@ -38,6 +39,7 @@ Proved here, for **all** buffers / numbers (no bound on digit counts or exponent
   (800-digit `Decimal`, `LeftShift`/`RightShift` with `LSHIFT_TAB`, `RoundedInteger`, `DecimalToF64`) returns the
   correctly rounded double for texts of any length and never faults; known finding: `C04_native_guard_needed`;
 * `C04_parseNumber_correct` (master theorem: every path of `parseNumber` agrees with the reference — `NumAgrees`),
+  `C04_parseNumber_correct'` (the same under the weak exponent guard: `|exp| < 100000` or token of at most 9600 bytes),
   `C04_parseNumber_malformed`, `C04_parseNumber_shape` (any token, guard or not: ends at the token's end),
   `C04_parseNumber_congr` (buffer independence), `C04_number_agrees_padded` (the same on the parser's buffer
   `bs ++ x"x ++ pad`, hypotheses on the text `bs` only), `C04_native_never_faults` (all byte strings).
@@ -685,5 +687,31 @@ theorem C04_number_agrees_padded (bs pad buf : List Nat) (start : Nat) (hs : sta
     exceeds its bound. -/
 theorem C04_native_never_faults (txt : List Nat) : (atofNative txt).2 = false :=
   Sonic.Proofs.Dec.atofNative_nofault txt
+
+
+/-- **Master theorem under the weak exponent guard.**  As `C04_parseNumber_correct`, but the written exponent only has
+    to be below 100000 in magnitude *or the token at most 9600 bytes long*.  In a short token a larger exponent makes
+    both `int exp` accumulators (`parseNumber`'s and `SetDecimal`'s: `if (exp < 10000) exp = exp * 10 + digit`) saturate
+    in `[10000, 99999]` with the right sign; at most 9600 mantissa digits shift the decimal exponent by less than 9600,
+    so `exp10` stays beyond `±348` (the exact fast path, `ParseFloatingNormalFast` and Eisel–Lemire decline) and
+    `AtofNative` sees the decimal point beyond `310` resp. below `-330`: `kParseErrorInfinity` resp. `±0.0`, exactly
+    what the reference says for the true exponent.  Known finding F6 therefore needs a token of more than 9600 bytes. -/
+theorem C04_parseNumber_correct' (buf : List Nat) (len start : Nat) (t : Token)
+    (ht : scanToken (buf.drop start) = some t) (hlen : start + t.len ≤ len)
+    (hexp : (expVal t.exp).natAbs < 100000 ∨ t.len ≤ 9600)
+    (hg : nativeGuard t ((buf.drop start).drop t.len) = true) :
+    NumAgrees start len (scanNumber buf start) (numOut (parseNumber buf len start)) :=
+  Sonic.Proofs.NumberAll.parseNumber_correct' buf len start t ht hlen hexp hg
+
+-- non-vacuity: `1e100000` → kParseErrorInfinity, `1e-100000` → +0.0, `-1E-99999999999` → -0.0, and a zero mantissa
+example : parseNumber [49,101,49,48,48,48,48,48,120,34,120] 8 0 = .err errInfinity 8 ∧
+    scanNumber [49,101,49,48,48,48,48,48,120,34,120] 0 = .infinity 8 := by decide +kernel
+example : parseNumber [49,101,45,49,48,48,48,48,48,120,34,120] 9 0 = .ok (.real 0) 9 .native ∧
+    scanNumber [49,101,45,49,48,48,48,48,48,120,34,120] 0 = .ok (.real 0) 9 := by decide +kernel
+example : parseNumber [45,49,69,45,57,57,57,57,57,57,57,57,57,57,57,120,34,120] 15 0 = .ok (.real (2 ^ 63)) 15 .native ∧
+    scanNumber [45,49,69,45,57,57,57,57,57,57,57,57,57,57,57,120,34,120] 0 = .ok (.real (2 ^ 63)) 15 := by
+  decide +kernel
+example : parseNumber [48,101,57,57,57,57,57,57,120,34,120] 8 0 = .ok (.real 0) 8 .zero ∧
+    scanNumber [48,101,57,57,57,57,57,57,120,34,120] 0 = .ok (.real 0) 8 := by decide +kernel
 
 end Sonic.Props.C04
